@@ -108,6 +108,7 @@ func thorough(c *Ctx, repo string, extra map[string]interface{}) {
 	type res struct {
 		id     string
 		status string
+		benign bool
 	}
 	var mu sync.Mutex
 	var results []res
@@ -133,7 +134,7 @@ func thorough(c *Ctx, repo string, extra map[string]interface{}) {
 			defer func() { <-sem }()
 			st := runOnVariant(repo, verifDir, d, c.Prop)
 			mu.Lock()
-			results = append(results, res{filepath.Base(d), st})
+			results = append(results, res{filepath.Base(d), st, benign})
 			mu.Unlock()
 		}(d, meta.Kind == "benign")
 	}
@@ -142,7 +143,7 @@ func thorough(c *Ctx, repo string, extra map[string]interface{}) {
 	killed, total, silent, benign, skipped := 0, 0, 0, 0, 0
 	survivors, alarms := []string{}, []string{}
 	for _, r := range results {
-		isBenign := strings.HasPrefix(r.id, "benign-") || strings.Contains(r.id, "-r")
+		isBenign := r.benign
 		switch {
 		case r.status == "skipped":
 			skipped++
